@@ -331,14 +331,14 @@ class Lexer:
         if isend:
             self.tag.pop()
         elif keyword == "text":
-            match = self.match(r"(.*?)(?=\</%text>)", re.S)
+            match = self.match(r"(.*?)\</%text>", re.S)
             if not match:
                 raise exceptions.SyntaxException(
                     "Unclosed tag: <%%%s>" % self.tag[-1].keyword,
                     **self.exception_kwargs,
                 )
             self.append_node(parsetree.Text, match.group(1))
-            return self.match_tag_end()
+            self.tag.pop()
         return True
 
     def match_tag_end(self):
